@@ -29,11 +29,19 @@ func replyOps() []replyOp {
 	seq := []ClientOption{MaxPacketChecked(64), UseConcurrentReads(false)}
 	cw := []ClientOption{MaxPacketChecked(64), MaxConcurrentRequestsPerFile(3), UseConcurrentWrites(true)}
 	return []replyOp{
-		{"Stat", tStat, 1, nil, func(cl *Client, f *File) error { _, err := cl.Stat("/a"); return err }},
-		{"Lstat", tLstat, 1, nil, func(cl *Client, f *File) error { _, err := cl.Lstat("/a"); return err }},
+		{"Stat", tStat, 1, nil, func(cl *Client, f *File) error { fi, err := cl.Stat("/a"); useInfo(fi, err); return err }},
+		{"Lstat", tLstat, 1, nil, func(cl *Client, f *File) error { fi, err := cl.Lstat("/a"); useInfo(fi, err); return err }},
 		{"ReadLink", tReadlink, 1, nil, func(cl *Client, f *File) error { _, err := cl.ReadLink("/a"); return err }},
 		{"RealPath", tRealpath, 1, nil, func(cl *Client, f *File) error { _, err := cl.RealPath("a"); return err }},
-		{"Open", tOpen, 1, nil, func(cl *Client, f *File) error { _, err := cl.Open("/a"); return err }},
+		{"Open", tOpen, 1, nil, func(cl *Client, f *File) error {
+			g, err := cl.Open("/a")
+			if err == nil {
+				_ = g.Name()
+				g.Read(make([]byte, 4))
+				g.Close()
+			}
+			return err
+		}},
 		{"Mkdir", tMkdir, 1, nil, func(cl *Client, f *File) error { return cl.Mkdir("/a") }},
 		{"Remove", tRemove, 1, nil, func(cl *Client, f *File) error { return cl.Remove("/a") }},
 		{"RemoveDirectory", tRmdir, 1, nil, func(cl *Client, f *File) error { return cl.RemoveDirectory("/a") }},
@@ -42,13 +50,43 @@ func replyOps() []replyOp {
 		{"Link", tExtended, 1, nil, func(cl *Client, f *File) error { return cl.Link("/a", "/b") }},
 		{"Symlink", tSymlink, 1, nil, func(cl *Client, f *File) error { return cl.Symlink("/a", "/b") }},
 		{"Chmod", tSetstat, 1, nil, func(cl *Client, f *File) error { return cl.Chmod("/a", 0o600) }},
-		{"StatVFS", tExtended, 1, nil, func(cl *Client, f *File) error { _, err := cl.StatVFS("/a"); return err }},
-		{"ReadDir-opendir", tOpendir, 1, nil, func(cl *Client, f *File) error { _, err := cl.ReadDir("/d"); return err }},
-		{"ReadDir-readdir1", tReaddir, 1, nil, func(cl *Client, f *File) error { _, err := cl.ReadDir("/d"); return err }},
-		{"ReadDir-readdir3", tReaddir, 3, nil, func(cl *Client, f *File) error { _, err := cl.ReadDir("/d"); return err }},
-		{"ReadDir-close", tClose, 1, nil, func(cl *Client, f *File) error { _, err := cl.ReadDir("/d"); return err }},
+		{"StatVFS", tExtended, 1, nil, func(cl *Client, f *File) error {
+			v, err := cl.StatVFS("/a")
+			if err == nil {
+				_ = v.TotalSpace() + v.FreeSpace()
+			}
+			return err
+		}},
+		{"ReadDir-opendir", tOpendir, 1, nil, func(cl *Client, f *File) error {
+			fis, err := cl.ReadDir("/d")
+			for _, fi := range fis {
+				useInfo(fi, nil)
+			}
+			return err
+		}},
+		{"ReadDir-readdir1", tReaddir, 1, nil, func(cl *Client, f *File) error {
+			fis, err := cl.ReadDir("/d")
+			for _, fi := range fis {
+				useInfo(fi, nil)
+			}
+			return err
+		}},
+		{"ReadDir-readdir3", tReaddir, 3, nil, func(cl *Client, f *File) error {
+			fis, err := cl.ReadDir("/d")
+			for _, fi := range fis {
+				useInfo(fi, nil)
+			}
+			return err
+		}},
+		{"ReadDir-close", tClose, 1, nil, func(cl *Client, f *File) error {
+			fis, err := cl.ReadDir("/d")
+			for _, fi := range fis {
+				useInfo(fi, nil)
+			}
+			return err
+		}},
 		{"MkdirAll", tStat, 1, nil, func(cl *Client, f *File) error { return cl.MkdirAll("/x/y") }},
-		{"File.Stat", tFstat, 1, nil, func(cl *Client, f *File) error { _, err := f.Stat(); return err }},
+		{"File.Stat", tFstat, 1, nil, func(cl *Client, f *File) error { fi, err := f.Stat(); useInfo(fi, err); return err }},
 		{"File.ReadAt", tRead, 1, small, func(cl *Client, f *File) error { _, err := f.ReadAt(make([]byte, 40), 3); return err }},
 		{"File.ReadAt-conc2", tRead, 2, small, func(cl *Client, f *File) error { _, err := f.ReadAt(make([]byte, 300), 3); return err }},
 		{"File.ReadAt-seq2", tRead, 2, seq, func(cl *Client, f *File) error { _, err := f.ReadAt(make([]byte, 300), 3); return err }},
@@ -100,6 +138,19 @@ func replyOps() []replyOp {
 	}
 }
 
+// useInfo touches every accessor of a returned FileInfo: a value the operation returned with a nil error must be usable.
+func useInfo(fi os.FileInfo, err error) {
+	if err != nil {
+		return
+	}
+	_ = fi.Name()
+	_ = fi.Size()
+	_ = fi.Mode()
+	_ = fi.ModTime()
+	_ = fi.IsDir()
+	_ = fi.Sys()
+}
+
 type replyMut struct {
 	desc string
 	f    func(valid []byte) []byte
@@ -146,6 +197,26 @@ func replyMutations(valid []byte, r interface{ Intn(int) int }, thorough bool) [
 		m := append([]byte(nil), valid...)
 		m[4] = byte(v)
 		add(fmt.Sprintf("type=%d", v), m)
+	}
+	// a WELL-FORMED reply of every kind with the request's id (for most requests: of a kind the request cannot have)
+	if len(valid) >= 9 {
+		id := binary.BigEndian.Uint32(valid[5:9])
+		add("wf:status-ok", fStatus(id, 0, "ok"))
+		add("wf:status-eof", fStatus(id, 1, "eof"))
+		add("wf:status-failure", fStatus(id, 4, "failure"))
+		add("wf:status-code99", fStatus(id, 99, "?"))
+		add("wf:handle", fHandle(id, "h"))
+		add("wf:handle-empty", fHandle(id, ""))
+		add("wf:data", fData(id, []byte("xyz")))
+		add("wf:data-empty", fData(id, nil))
+		add("wf:data-long", fData(id, make([]byte, 5000)))
+		add("wf:name0", fName(id, nil))
+		add("wf:name1", fName(id, []wname{{Name: "n", Long: "l", A: wattrs{}}}))
+		add("wf:name2", fName(id, []wname{{Name: "n", Long: "l", A: wattrs{}}, {Name: "m", Long: "k", A: wattrs{Flags: 1, Size: 7}}}))
+		add("wf:attrs-empty", fAttrs(id, wattrs{}))
+		add("wf:attrs-size", fAttrs(id, wattrs{Flags: 1, Size: 1 << 62}))
+		add("wf:extreply-empty", mkFrame(tExtReply, new(wb).u32(id).b))
+		add("wf:extreply-short", mkFrame(tExtReply, new(wb).u32(id).u32(7).b))
 	}
 	// frames that are too short to carry an id, id replaced, random bodies
 	add("empty-body", mkFrame(valid[4], nil))
